@@ -75,6 +75,10 @@ def rep_special_factors(rep):
     out += [(M, 1), (1, M), (7, 1 << (b - 1)), (3, 1 << (b - 2)), (1 << (b - 2), 3), (k3, 7), (7, k3)]
     if b <= 16:
         out += [(30011, 7), (7, 30011), (46337, 46349), (2147483647, 3), (3, 2147483647)]
+        # numerator just above max(P)/max(T) with a small denominator: x*N still fits the promoted type for x <= D while x*N/D no longer fits T
+        n0 = PM // M + 2
+        while gcd(n0, 7 * 11) != 1: n0 += 1
+        out += [(n0, 7), (3 * n0 + 1 if gcd(3 * n0 + 1, 11) == 1 else 3 * n0 + 2, 11)]
     if b == 32:
         out += [(2147483647, 3), (3, 2147483647), (65521, 65537)]
     if b == 64:
